@@ -51,6 +51,34 @@ CHECKS = {
    "deterministic simulation: enumerated map-iteration orders through the overlay seam, histories, world parameters", "DESIGN.md §5 C18"),
 }
 
+
+CHECKS.update({
+ "C02": ("HIST", "exploration",
+   "Seeded calls of every non-terminating severity through every entry point (also the package-level functions) with generated well-formed and malformed argument lists of every Go kind, over three formats, random flags, logger levels and 1-3 destinations per class; the per-destination I/O history during each call is the observable: no panic, exactly one Write per selected destination ending in a newline, none when not admitted, a single newline byte for blank Print/Println. The pool tape recycles buffers and attribute slices between calls.",
+   "The argument space itself is workload generation; the simulation ingredients are the recorded I/O history per destination and the pool-recycling tape. Admission and selection come from the C01/C03 reference models. Values whose own methods panic and cyclic values are excluded by the statement.",
+   "deterministic simulation: per-call I/O histories at simulated destinations, pool-recycling tape, reference admission and routing models", "DESIGN.md §5 C02"),
+ "C08": ("CONC+CONC-race", "exploration",
+   "Seeded search over schedules of 1-64 caller tasks: exactly one task runs at a time and a tape decides who runs at every user-callback boundary (attribute Key/Value, String, Error, context Value, Write entry/exit, stalls), so preemption happens inside the sort, dedupe and serialisation of a record. Every payload must be the complete record of exactly one call (unique token and values), per-destination conservation must hold, and the same workloads run in a race-transparent world (tasks parked by spinning in norace code, GOMAXPROCS=1) where the Go race detector must stay silent.",
+   "Preemption points are callback boundaries only. The race detector keeps a bounded access history (race episodes are short). In the race world the real sync.Pool runs, so pooled-object choice is not on the tape there (replay retries up to 8 times).",
+   "deterministic simulation: seeded scheduler over real goroutines, schedule tape, destination stalls, happens-before race detection made schedule-deterministic", "DESIGN.md §5 C08, §2.4"),
+ "C09": ("CONC", "exploration",
+   "The same probe call (fixed timestamp through WriteThru, fixed call site) is issued in the pristine world process and again after seeded histories of 0-200 other calls on 1-4 tasks; the pool tape decides whether the probe is formatted in a fresh, the most recently recycled or an older context; payloads must be byte-identical.",
+   "No configuration change between the two probes (generator invariant, enforced for minimised scenarios).",
+   "deterministic simulation: histories x schedules x pool-recycling tape, byte equality", "DESIGN.md §5 C09"),
+ "C12": ("PROC", "fault_enumeration",
+   "Complete enumeration of the termination matrix (entry point x flags x process mode x admitted x format = 672 cells), each in its own world process whose death is the crash point: the record must be complete in a real file read after the process is gone, a Panic must be recoverable with the message as value, a Fatal must exit with status 253 with nothing after the record, every other cell and every other severity must run on to the end marker.",
+   "Process mode is spoofed through argv0/-test.* exactly as hedzr/is reads it. Messages, attributes and surrounding calls are sampled per seed.",
+   "deterministic simulation: one OS process per cell, process death as crash point, durable destination read after death", "DESIGN.md §5 C12"),
+ "C13": ("CONC", "fault_enumeration",
+   "Exhaustive core: every succeed/fail assignment to the first K (8 quick, 10 thorough) Write attempts of each listed configuration, plus sampled longer fault sequences of all kinds (error, partial write with error, short write without error, stall), also on the diagnostic's own write and under 2-4 concurrent caller tasks, each followed by a fault-free tail; per call: normal return, whole record exactly once on every non-failing selected destination, at most one diagnostic and only at the warning destinations, attempt budget; tail: full delivery (no sticky state).",
+   "Faults are attached to write attempts, so they always land inside a call. A short write without error is not a failure. The package defaults (fd 1/2) are not part of these configurations.",
+   "deterministic simulation with fault injection at simulated destinations: enumerated fault assignments + seeded fault sequences", "DESIGN.md §5 C13"),
+ "C19": ("BUF", "exploration",
+   "Seeded histories of the 20 listed methods on a PrintCtx and on bytes.Buffer (the reference model, run in lock-step in the same world) with boundary arguments and fault-injecting io.Reader/io.Writer peers given an identical fault script; after every call the results, error identity, panic and remaining contents must agree.",
+   "Reference = bytes.Buffer of the default toolchain. runtime.Error panics are compared as a class, other panics and errors by text after mapping the type name. Sizes that would really allocate more than 1 MiB are not generated.",
+   "deterministic simulation: lock-step differential execution against the reference, faulty I/O peers", "DESIGN.md §5 C19"),
+})
+
 def main():
     checks = []
     for pid in sorted(CHECKS):
